@@ -3,6 +3,7 @@ System-level inductive invariant of the scheduler/worker model (Model/SchedSys.l
 configuration that satisfies `InitOk`, every number of workers and every interleaving.
 -/
 import SluVerif.Proofs.SchedSysLemmas
+import Batteries.Data.List.Perm
 
 namespace Slu
 open Slu.Gen
@@ -91,12 +92,15 @@ structure SysInv (K : Cfg) (s : Sys) : Prop where
   usz : s.sh.ukids.size = K.c.n + 1
   qok : QueueOk s.sh
   qpan : ∀ k, k < s.sh.tail → getN s.sh.queue k ∈ K.panels
+  qstate : ∀ k, k < s.sh.tail → stt s (getN s.sh.queue k) ≠ UNREADY
+  qnodup : (qlist s.sh).Nodup
+  qsz : s.sh.queue.size = K.c.n
   own_w : ∀ i p b, (wk s i).phase = .working p b → (wk s i).cur = some p ∧ stt s p = BUSY ∧ p ∈ K.panels
   own_i : ∀ i q, (wk s i).cur = some q → ¬ isWorking (wk s i) → stt s q = DONE ∧ q ∈ K.panels
   own_u : ∀ i i' q, (wk s i).cur = some q → (wk s i').cur = some q → i = i'
   busy_owned : ∀ p ∈ K.panels, stt s p = BUSY → ∃ i b, (wk s i).phase = .working p b
   valid : ∀ p ∈ K.panels, stt s p ≤ UNREADY
-  kids : ∀ d, d ≤ K.c.n → ukd s d = (cnt K.panels (fun q => K.dad q = d ∧ unrep s q) : Int)
+  kids : ∀ d, (d ∈ K.panels ∨ d = K.c.n) → ukd s d = (cnt K.panels (fun q => K.dad q = d ∧ unrep s q) : Int)
   closed : ∀ d ∈ K.panels, stt s d ≠ UNREADY → ∀ q ∈ K.panels, K.dad q = d → stt s q ≤ BUSY
   tasks : s.sh.tasksRemain = (cnt K.panels (fun p => stt s p > BUSY) : Int)
   /-- some root panel is unreported and is not about to be reported by a worker sitting in the scheduler call -/
@@ -106,7 +110,7 @@ structure SysInv (K : Cfg) (s : Sys) : Prop where
 structure CfgWF (K : Cfg) : Prop where
   nodup : K.panels.Nodup
   lt : ∀ p ∈ K.panels, p < K.c.n
-  dad_gt : ∀ j, j < K.c.n → j < K.dad j ∧ K.dad j ≤ K.c.n
+  dad_gt : ∀ p ∈ K.panels, p < K.dad p ∧ K.dad p ≤ K.c.n
   dad_pan : ∀ p ∈ K.panels, K.dad p < K.c.n → K.dad p ∈ K.panels
 
 
@@ -123,7 +127,7 @@ theorem untaken_root (K : Cfg) (W : CfgWF K) (s : Sys) (inv : SysInv K s) :
   | succ m ih =>
     intro p hm hp hst
     have hpn := W.lt p hp
-    have hd := W.dad_gt p hpn
+    have hd := W.dad_gt p hp
     by_cases hroot : K.dad p = K.c.n
     · exact ⟨p, hp, hroot, hst⟩
     · have hdn : K.dad p < K.c.n := by omega
@@ -169,12 +173,15 @@ theorem sysInv_loop (K : Cfg) (W : CfgWF K) (s : Sys) (inv : SysInv K s) (w : Na
       · intro hc; split at hc <;> cases hc
       · intro hc; cases hc
     · simp only [e, if_false]
-  refine ⟨?_, ?_, ?_, ?_, ?_, ?_, ?_, ?_, ?_, ?_, ?_, ?_, ?_, ?_⟩
+  refine ⟨?_, ?_, ?_, ?_, ?_, ?_, ?_, ?_, ?_, ?_, ?_, ?_, ?_, ?_, ?_, ?_, ?_⟩
   · intro j; rw [hsh]; exact inv.dad_eq j
   · rw [hsh]; exact inv.ssz
   · rw [hsh]; exact inv.usz
   · rw [hsh]; exact inv.qok
   · rw [hsh]; exact inv.qpan
+  · intro k hk; rw [hst, hsh]; rw [hsh] at hk; exact inv.qstate k hk
+  · rw [hsh]; exact inv.qnodup
+  · rw [hsh]; exact inv.qsz
   · intro i p b hp
     rw [hcur, hst]
     exact inv.own_w i p b ((hwork i p b).1 hp)
@@ -260,12 +267,23 @@ theorem sysInv_finish (K : Cfg) (W : CfgWF K) (s : Sys) (inv : SysInv K s) (w : 
       simp only [if_true, ne_eq, not_true_eq_false, false_and, iff_false]
       intro hc; cases hc
     · simp only [e, if_false, ne_eq, not_false_eq_true, true_and]
-  refine ⟨?_, ?_, ?_, ?_, ?_, ?_, ?_, ?_, ?_, ?_, ?_, ?_, ?_, ?_⟩
+  refine ⟨?_, ?_, ?_, ?_, ?_, ?_, ?_, ?_, ?_, ?_, ?_, ?_, ?_, ?_, ?_, ?_, ?_⟩
   · intro j; rw [hsh]; rw [dadPanel_congr K.c _ s.sh (finishPanel_size _ _)]; exact inv.dad_eq j
   · rw [hsh, finishPanel_state]; simp [inv.ssz]
   · rw [hsh, finishPanel_ukids]; exact inv.usz
   · rw [hsh]; exact inv.qok
   · rw [hsh]; exact inv.qpan
+  · intro k hk
+    rw [hsh] at hk
+    have hk' : k < s.sh.tail := hk
+    rw [hst]
+    have e1 : getN (step K.c s (.finish w)).sh.queue k = getN s.sh.queue k := by rw [hsh]; rfl
+    rw [e1]
+    split
+    · simp [DONE, UNREADY]
+    · exact inv.qstate k hk'
+  · rw [hsh]; exact inv.qnodup
+  · rw [hsh]; exact inv.qsz
   · intro i p' b' hp'
     obtain ⟨hne, hp''⟩ := (hwork i p' b').1 hp'
     obtain ⟨c1, c2, c3⟩ := inv.own_w i p' b' hp''
